@@ -241,6 +241,7 @@ def main(run):
     _grid_order(run, rng, thorough, lines, meta)
     _object_reuse(run, rng, thorough, lines, meta)
     _large_dos(run, rng, thorough)
+    _relabelled(run, rng, thorough)
 
     # ------------------------------------------------------------------ compare with the models
     if not translated:
@@ -795,6 +796,91 @@ def _object_reuse(run, rng, thorough, lines, meta):
             run.count("oracle-dos-object-rerun", section="oracle")
             if second.shape != refd.shape or np.abs(second - refd).max() > 1e-12 * max(1.0, np.abs(refd).max()):
                 run.violation(cls.__name__ + ".run", "rerun-ne-fresh-object", "second run after set_draw_area differs from a fresh object", dict(cell=name, mesh=list(mesh)))
+
+
+def _relabelled(run, rng, thorough):
+    """DESCRIPTION INVARIANCE: tetrahedron (and smearing) DOS on relabelled lattice vectors (left-handed: swap, negation,
+    inversion; sheared; cyclic): the property's oracle on the relabelled description, and comparison with the original
+    description - pointwise where the tetrahedron decomposition is the same (inversion always; other signed permutations
+    when the shortest main diagonal is unique), otherwise integrated DOS and normalisation."""
+    from phonopy.phonon.tetrahedron_mesh import TetrahedronMesh
+
+    kinds = [rng.choice(["swap12", "negate3", "invert"]), rng.choice(["shear", "cyclic", "invert"])]
+    if thorough:
+        kinds = list(gen.UNIMODULAR)
+    names = ["cscl", "nacl_prim", "hcp", "bct", "mono_P", "triclinic", "rhombo", "zincblende_prim"]
+    for kind in kinds:
+        name = rng.choice(names)
+        cell, cen = gen.make_cell(name)
+        M = np.array(gen.UNIMODULAR[kind], dtype=int)
+        cell2, qmap, smap = gen.relabelled_cell(cell, M)
+        S = np.diag([2, 2, 2]) if len(cell) <= 2 else np.diag([2, 2, 1])
+        if kind == "shear":
+            m0 = rng.choice([3, 4, 5])
+            mesh = [m0, m0, rng.randint(2, 5)]
+        else:
+            mesh = [rng.randint(2, 5) for _ in range(3)]
+        mesh2 = [int(v) for v in np.abs(M) @ np.array(mesh)] if kind != "shear" else list(mesh)
+        out = {}
+        grid = None
+        for tag, c_, S_, mesh_ in (("original", cell, S, mesh), (kind, cell2, smap(S), mesh2)):
+            ph = gen.make_phonopy(c_, S_, pmat="P")
+            ph.force_constants = gen.pair_fc(ph.supercell, min(0.9 * gen.min_lattice_vector(ph.supercell.cell), 5.0))
+            ph.run_mesh(mesh_, with_eigenvectors=True, is_mesh_symmetry=False, is_gamma_center=True)
+            m = ph.mesh
+            fr = np.array(m.frequencies)
+            nb = fr.shape[1]
+            if grid is None:
+                fmin, fmax = float(fr.min()), float(fr.max())
+                grid = dict(freq_min=fmin - 0.3, freq_max=fmax + 0.3, freq_pitch=(fmax - fmin + 0.6) / 400)
+            info = dict(cell=name, description=tag, M=M.tolist() if tag != "original" else None, volume=float(c_.volume), mesh=list(mesh_),
+                        supercell_matrix=np.array(S_).tolist(), force_constants="gen.pair_fc")
+            per = {}
+            for method, kw in (("tetrahedron", dict(use_tetrahedron_method=True)), ("smearing", dict(sigma=0.1, use_tetrahedron_method=False))):
+                ph.run_total_dos(**grid, **kw)
+                td = ph.get_total_dos_dict()
+                ph.run_projected_dos(**grid, **kw)
+                pd = np.array(ph.get_projected_dos_dict()["projected_dos"])
+                fp, tot = np.array(td["frequency_points"]), np.array(td["total_dos"])
+                integ = float(np.sum((tot[1:] + tot[:-1]) / 2 * np.diff(fp)))
+                per[method] = (fp, tot, integ)
+                run.count("oracle-relabelled-dos-%s" % method, section="oracle")
+                suffix = "-left-handed" if c_.volume < 0 else ("-relabelled" if tag != "original" else "")
+                if (tot < -1e-10).any() or (pd < -1e-10).any():
+                    run.violation("Phonopy.run_total_dos", "dos-negative-" + method + suffix, "negative DOS on the %s description" % tag, info)
+                if np.abs(pd.sum(axis=0) - tot).max() > 1e-9 * max(1.0, np.abs(tot).max()):
+                    run.violation("Phonopy.run_projected_dos", "pdos-sum-ne-total-" + method + suffix,
+                                  "sum of projected DOS differs from the total DOS by %.3g on the %s description" % (np.abs(pd.sum(axis=0) - tot).max(), tag), info)
+                if method == "smearing" and abs(integ - nb) > 0.02 * nb:
+                    run.violation("Phonopy.run_total_dos", "dos-normalisation-smearing" + suffix, "integrated DOS %.4f, bands %d on the %s description" % (integ, nb, tag), info)
+            thm = TetrahedronMesh(ph.primitive, fr, m.mesh_numbers, np.array(m.grid_address, dtype="int64"), np.array(m.grid_mapping_table, dtype="int64"), m.ir_grid_points)
+            thm.set(value="J", frequency_points=np.array([float(fr.max()) + 0.5]))
+            cum = sum(float((iw * m.weights[i]).sum()) for i, iw in enumerate(thm))
+            if abs(cum - nb) > 1e-10 * nb:
+                run.violation("TetrahedronMesh", "cumulative-above-top" + ("-left-handed" if c_.volume < 0 else ""),
+                              "cumulative tetrahedron weight above the spectrum is %.12g, bands %d on the %s description" % (cum, nb, tag), info)
+            rl = np.linalg.inv(np.array(ph.primitive.cell)) / np.array(mesh_, dtype=float)[None, :]
+            dl = sorted(float(((rl @ np.array(sg)) ** 2).sum()) for sg in ((1, 1, 1), (-1, 1, 1), (1, -1, 1), (1, 1, -1)))
+            out[tag] = (per, dl[1] > dl[0] * (1 + 1e-6))
+        (po, uniq), (pr, _) = out["original"], out[kind]
+        run.case(("relabel-dos", name, kind, tuple(mesh)), nontrivial=True)
+        run.count("relabelled description: %s" % kind)
+        info = dict(cell=name, kind=kind, M=M.tolist(), mesh=list(mesh), mesh_relabelled=list(mesh2), force_constants="gen.pair_fc")
+        # smearing DOS does not depend on the tetrahedron decomposition: pointwise equal for every relabelling
+        # (tolerance 1e-5: the acoustic modes at Gamma carry +-1e-7 THz noise that differs between descriptions)
+        if np.abs(po["smearing"][1] - pr["smearing"][1]).max() > 1e-5 * max(1.0, np.abs(po["smearing"][1]).max()):
+            run.violation("Phonopy.run_total_dos", "smearing-dos-depends-on-description", "smearing DOS differs between the original and the %s description by %.3g"
+                          % (kind, np.abs(po["smearing"][1] - pr["smearing"][1]).max()), info)
+        same_decomposition = kind == "invert" or (kind in ("negate3", "swap12", "cyclic") and uniq)
+        if same_decomposition:
+            if np.abs(po["tetrahedron"][1] - pr["tetrahedron"][1]).max() > 1e-5 * max(1.0, np.abs(po["tetrahedron"][1]).max()):
+                run.violation("Phonopy.run_total_dos", "tetrahedron-dos-depends-on-description",
+                              "tetrahedron DOS (same grid, same decomposition) differs between the original and the %s description by %.3g"
+                              % (kind, np.abs(po["tetrahedron"][1] - pr["tetrahedron"][1]).max()), info)
+        elif abs(po["tetrahedron"][2] - pr["tetrahedron"][2]) > 0.05 * max(1.0, abs(po["tetrahedron"][2])):
+            run.violation("Phonopy.run_total_dos", "integrated-tetrahedron-dos-depends-on-description",
+                          "integrated tetrahedron DOS %.4f vs %.4f between the original and the %s description" % (po["tetrahedron"][2], pr["tetrahedron"][2], kind), info)
+        run.count("oracle-relabelled-dos-vs-original", section="oracle")
 
 
 def _large_dos(run, rng, thorough):
